@@ -57,6 +57,67 @@ class ToyLM:
         return np.array([math.log(eos_w(p) / self.m) for p in h.ps])
 
 
+# ---- the same toy LM behind the REAL LMWrapper / HiddenState (pero_ocr/decoding/lm_wrapper.py) -------------------------
+# hidden state = one float64 scalar per beam entry holding the history in base 8 behind a leading 1
+# (vocabulary: 0 = '</s>', 1..NC = characters), so that the torch-side state *is* the context, exactly (< 2^53).
+def _digits(x):
+    n = int(round(float(x)))
+    ds = []
+    while n > 1:
+        ds.append(n % 8)
+        n //= 8
+    return tuple(reversed(ds))
+
+
+def history_of_scalar(x):
+    """history (1-based character numbers) encoded in a hidden-state scalar; '</s>' digits are separators and dropped"""
+    return tuple(d for d in _digits(x) if d != 0)
+
+
+def make_wrapped_lm(nc, m):
+    import torch
+    from pero_ocr.decoding.lm_wrapper import LMWrapper
+
+    class Model(torch.nn.Module):
+        def forward(self, xs, hs):
+            h = hs.clone()
+            for j in range(xs.shape[1]):
+                h = h * 8 + xs[:, j].to(h.dtype).view(1, -1, 1)
+            return None, h
+
+        def init_hidden(self, bsz):
+            return torch.ones((1, bsz, 1), dtype=torch.float64)
+
+    class Decoder(torch.nn.Module):
+        def forward(self, hs):            # (B, 1) -> (B, 1 + NC) log-probabilities over ['</s>', chars...]
+            rows = []
+            for x in hs.reshape(-1).tolist():
+                hist = history_of_scalar(x)
+                rows.append([math.log(eos_w(hist) / m)] + [math.log(lm_w(hist, c) / m) for c in range(1, nc + 1)])
+            return torch.tensor(rows, dtype=torch.float64)
+
+    class Lm(torch.nn.Module):
+        def __init__(self):
+            super().__init__()
+            self.model = Model()
+            self.decoder = Decoder()
+            self.vocab = {'</s>': 0}
+            self.vocab.update({chr(97 + i): i + 1 for i in range(nc)})
+            self._unused_prefix_len = 1
+
+    return LMWrapper(Lm(), [chr(97 + i) for i in range(nc)], torch.device("cpu"))
+
+
+def wrapped_state(hist):
+    """HiddenState for a supplied initial history (start symbol, then the characters)"""
+    import torch
+    from pero_ocr.decoding.lm_wrapper import HiddenState
+    x = 1 * 8 + 0
+    for c in hist:
+        x = x * 8 + c
+    return HiddenState(torch.full((1, 1, 1), float(x), dtype=torch.float64))
+
+
 def rows_of(nc, d, normalised=True):
     rows = itertools.product(range(d + 1), repeat=nc + 1)
     return [r for r in rows if (sum(r) == d or not normalised)]
@@ -96,7 +157,11 @@ def _decode_one(mat):
     rec = {"mat": [list(r) for r in mat], "frames": [], "outcome": "ok", "best": [], "confset": [],
            "has_h": False, "hret": []}
     use_lm, eos = c["UseLm"], c["Eos"]
-    init_h = ToyH([(c["H0"],)]) if (use_lm and c["H0"]) else None
+    wrapped = c.get("lm_impl") == "wrapped"
+    if wrapped:
+        init_h = wrapped_state((c["H0"],)) if (use_lm and c["H0"]) else None
+    else:
+        init_h = ToyH([(c["H0"],)]) if (use_lm and c["H0"]) else None
     # The specification has no state across calls (Init always starts from the lone empty prefix), while the real decoder
     # object is long-lived (one instance decodes every line of every page).  To let a leak through the instance show up as a
     # trace mismatch, the shared instance first decodes, for a deterministic quarter of the cases, two degenerate lines
@@ -122,7 +187,7 @@ def _decode_one(mat):
                 if last and use_lm:
                     boh, hret = dec(lp[:t], return_h=True, **kw)
                     rec["has_h"] = True
-                    hist = tuple(hret.ps[0])
+                    hist = history_of_scalar(hret.prepare_for_torch().reshape(-1)[0]) if wrapped else tuple(hret.ps[0])
                     rec["hret"] = [int(x) for x in hist]
                 else:
                     boh = dec(lp[:t], **kw)
@@ -162,7 +227,8 @@ def run_config(cfg, mats):
     if sel is not None:
         kw["relevant_logits_selector"] = sel
     if cfg["UseLm"]:
-        kw.update(lm=ToyLM(cfg["NC"], cfg["M"]), lm_scale=cfg["SP"] / cfg["SQ"], insertion_bonus=math.log(cfg["Bonus"]))
+        lm = make_wrapped_lm(cfg["NC"], cfg["M"]) if cfg.get("lm_impl") == "wrapped" else ToyLM(cfg["NC"], cfg["M"])
+        kw.update(lm=lm, lm_scale=cfg["SP"] / cfg["SQ"], insertion_bonus=math.log(cfg["Bonus"]))
     k = cfg["K"]
     dec = CTCPrefixLogRawNumpyDecoder(letters, k, **kw)
     _CFG = dict(cfg)
